@@ -10,7 +10,7 @@ From RDPGW Require Import Lib.Bytes Gen.Consts Model.Utf16 Model.Packets Model.P
 Extraction Language OCaml.
 Extraction "model.ml"
   Byte.to_N Byte.of_N N.of_nat N.to_nat Z.of_N Z.to_N Z.opp
-  Bytes.dec Bytes.undec Bytes.contains_sub
+  Bytes.dec Bytes.undec Bytes.contains_sub Bytes.is_prefix
   Utf16.decode_utf16 Utf16.join_host_port
   Packets.create_packet Packets.read_header Packets.fstep Packets.match_auth
   Packets.make_redirect_flags Packets.handshake_request Packets.tunnel_request
